@@ -240,6 +240,15 @@ def _check_proxy_domain(res, mm, sc, T, cname, unit, via_file, full, history):
     import rv.api as api
     from .. import iffparse, workload
     sample_vals = [dom[0], dom[-1], dom[len(dom) // 2]]
+    try:
+        dflt = sc.default_value()
+        dflt = next((x for x in dom if _val(x) == _val(dflt)), None)
+    except Exception:
+        dflt = None
+    if dflt is not None and dflt not in sample_vals:
+        sample_vals.append(dflt)                 # the value the TARGET starts out with is a value like any other for the slot
+        res.count("proxy_file_checks_at_target_default")
+    target = mm.project.modules[1]
     holder = None
     for ctx in ("synth", "project"):
         if ctx == "project":
@@ -251,6 +260,15 @@ def _check_proxy_domain(res, mm, sc, T, cname, unit, via_file, full, history):
         for v in sample_vals:
             want = sc.stored(v, unit)
             mm.set_raw("user_defined_1", want)
+            if via_file:
+                # a loaded MetaModule is not linked to its embedded modules: the embedded controller is edited on its own and
+                # holds something else than the slot when the file is written
+                other = dom[0] if _val(v) != _val(dom[0]) else dom[-1]
+                try:
+                    setattr(target, cname, other)
+                    res.count("proxy_files_with_slot_and_target_apart")
+                except Exception:
+                    res.count("proxy_target_edit_refused")
             raw = api.Synth(mm).read() if ctx == "synth" else holder.read()
             chunks = iffparse.parse(raw)
             # CVALs of the MetaModule's own block: in a project file, the block whose STYP is MetaModule and that is not nested
@@ -493,6 +511,63 @@ def short_cval_files(res, tier):
                         break
 
 
+def sampler_record_histories(res, tier):
+    """The Sampler's controllers that live in its instrument record (not in CVAL chunks), on Samplers with a past: one that was
+    handed a chunk of another Sampler through the public load_chunk() hook, one loaded from a file whose writer left the
+    instrument record out, one loaded from a complete file.  v -> file -> v."""
+    import random
+    import rv.api as api
+    from rv.modules import Chunk
+    from .. import iffparse, workload
+    # (documented instrument-record fields: vibrato type 0..2 at $92, attack/depth 0..255, rate 0..63, fade-out 0..8192)
+    recs = [("vibrato_type", [0, 1, 2]), ("vibrato_attack", range(256)), ("vibrato_depth", range(256)), ("vibrato_rate", range(64)), ("volume_fadeout", range(8193))]
+    rng = random.Random(41)
+
+    def handed_a_chunk():
+        src = api.m.Sampler()
+        src.volume_envelope.points = [(0, 0x8000), (16, 0x4000), (64, 0)]
+        pairs = dict(src.volume_envelope.chunks())
+        ch = Chunk()
+        ch.chnm = int.from_bytes(pairs[b"CHNM"], "little")
+        ch.chdt = pairs[b"CHDT"]
+        dst = api.m.Sampler()
+        dst.load_chunk(ch)
+        return dst
+
+    def file_without_record():
+        chunks = [(c[0], c[1]) for c in iffparse.parse(api.Synth(api.m.Sampler()).read())]
+        out, skip = [], False
+        for cid, pl in chunks:
+            if cid == b"CHNM":
+                skip = pl == bytes(4)
+            if skip and cid in (b"CHNM", b"CHDT", b"CHFF", b"CHFR"):
+                continue
+            skip = False
+            out.append((cid, pl))
+        return workload.load(iffparse.build(out)).module
+
+    for hname, make in (("handed-a-chunk", handed_a_chunk), ("file-without-record", file_without_record), ("complete-file", lambda: api.m.Sampler().clone())):
+        for name, dom in recs:
+            dom = list(dom)
+            vals = dom if len(dom) <= 8 else [dom[0], dom[-1], dom[len(dom) // 2], rng.choice(dom), rng.choice(dom)]
+            for v in vals:
+                case = {"type": "Sampler", "controller": name, "value": v, "history": hname}
+                res.case(("sampler-record", hname, name, v))
+                res.count("sampler_record_history_checks")
+                try:
+                    m = make()
+                    setattr(m, name, api.m.Sampler.VibratoType(v) if name == "vibrato_type" else v)
+                    m.panning = -100
+                    back = workload.load(api.Synth(m).read()).module
+                except Exception as e:
+                    res.violation(f"C10:sampler-record-raises:{hname}:{workload.exc_key(e)}", f"Sampler ({hname}).{name} = {v!r}: {e!r}", case)
+                    break
+                got = getattr(back, name)
+                if _val(got) != v or back.get_raw(name) != m.get_raw(name) or back.panning != -100:
+                    res.violation(f"C10:sampler-record:{hname}:{name}", f"Sampler ({hname}): {name} = {v!r} reads back {got!r} from the written file (panning {back.panning})", case)
+                    break
+
+
 def run_shard(spec_, res):
     if spec_.get("part") == "soak":
         from .. import soak
@@ -505,6 +580,8 @@ def run_shard(spec_, res):
         surplus_cval_files(res, spec_["tier"])
     if spec_["shard"] == 2:
         embedded_edits(res, spec_["tier"])
+    if spec_["shard"] == 3:
+        sampler_record_histories(res, spec_["tier"])
     for T, cname, unit in spec_["tasks"]:
         check_controller(res, T, cname, unit)
         if spec_["tier"] == "thorough" and T != "Output":
